@@ -8,7 +8,7 @@ seeded moments, disabled).  Position by position each response must equal the re
 fresh, uncached engine to the same request."""
 from functools import lru_cache
 
-from simv.actors import forget
+from simv.actors import MARK_SDL, forget, register_mark
 from simv.checks.c15 import build_requests, describe_diff, same_response
 from simv.checks.common import COMMON_ASSUMPTIONS, base_result, pick_engine_cfg, trace_tail
 from simv.gen.schema import gen_schema
@@ -60,7 +60,7 @@ def run_one(seed, preset=None, tier="quick", want_case=False):
     cfgt = tape.sub("cfg")
     ot = tape.sub("hist")
     schema = gen_schema(tape, {"max_objects": 4, "default_impl_pct": 15})
-    sdl = print_sdl(schema)
+    sdl = print_sdl(schema) + MARK_SDL
     pool = build_requests(tape, schema, tier, shared_pct=0, max_req=8)
     cfg = pick_engine_cfg(cfgt)
     cache = cfgt.choose(["lru512", "lru1", "lru2", "dict", "lossy", "none"])
@@ -86,14 +86,14 @@ def run_one(seed, preset=None, tier="quick", want_case=False):
     out = None
     digests = []
     try:
-        engine = cook_engine(schema, name, cfg, sdl=sdl, **extra)
+        engine = cook_engine(schema, name, cfg, sdl=sdl, pre=register_mark, **extra)
 
         def fresh_response(req, as_bytes):
             key = (req.rid, as_bytes)
             if key not in baseline:
                 tn = "%s_%d_f%d_%d" % (ID, seed, req.rid, int(as_bytes))
                 names.append(tn)
-                fe = cook_engine(schema, tn, cfg, sdl=sdl, query_cache_decorator=None)
+                fe = cook_engine(schema, tn, cfg, sdl=sdl, pre=register_mark, query_cache_decorator=None)
                 r2 = req.clone()
                 if as_bytes:
                     r2.text = r2.text.encode("utf-8")
